@@ -11,7 +11,7 @@ R = lambda n: ("ref", n)  # noqa: E731
 # helper rules: n non-silent, s silent (produces a pair and can then still fail)
 HELPERS = (("n", "", S("a")), ("s", "_", ("seq", (R("n"), S("b")))))
 
-T_CORE = (S("a"), S("b"), S("ab"), ("ci", "a"), ("range", "a", "b"), R("ANY"), R("EOI"), R("n"), R("s"))
+T_CORE = (S("a"), S("b"), S("ab"), ("ci", "a"), ("range", "a", "b"), R("ANY"), R("EOI"), R("n"), R("s"), R("SOI"), R("ASCII_ALPHA_UPPER"))
 SIGMA_CORE = "abA"
 
 _inputs_cache: dict = {}
@@ -60,9 +60,9 @@ TRIVIA_SIGMA = {
 # (shared by C01, C06, C07, C13, C16: every expression kind in every nesting context)
 
 PUSH_AB = ("push", ("alt", (S("a"), S("b"))))
-T_STACK = (PUSH_AB, ("pop",), ("peek",), ("drop",), ("peekall",), ("popall",), ("pushlit", "b"), ("slice", 0, None))
-T_TAGGED = (("tag", "tt", R("n")), ("tag", "tt", ("grp", ("seq", (R("n"), S("b"))))))
-T_FULL = T_CORE + T_STACK + T_TAGGED
+T_STACK = (PUSH_AB, ("pop",), ("peek",), ("drop",), ("peekall",), ("popall",), ("pushlit", "b"), ("slice", 0, None), ("slice", -1, None))
+T_TAGGED = (("tag", "tt", R("n")), ("tag", "tt", ("grp", ("seq", (R("n"), S("b"))))), ("tag", "tt", R("s")))
+T_FULL = T_CORE + (("ci", "ab"),) + T_STACK + T_TAGGED
 MODS = ("", "_", "@", "$", "!")
 NEVER = S("!")          # '!' is in no input alphabet: HOLE ~ "!" commits HOLE and then fails
 REST = ("star", R("ANY"))
@@ -130,7 +130,7 @@ def batch_specs(starts, base_rules, ins, kmode, family, batch=40):
 
 C01_BOUNDS = {
     # top: list of (n, modifiers, trivia configs); ctx: (hole size, trivia configs); L: max number of inputs
-    "quick": {"top": [(2, MODS, ("none", "ws", "ws_loud", "cm2", "both", "ws_choice")), (3, ("", "@"), ("none", "ws"))],
+    "quick": {"top": [(2, MODS, ("none", "ws", "both")), (2, ("", "@"), ("ws_loud", "cm2", "ws_choice")), (3, ("", "@"), ("none", "ws"))],
               "ctx": [(2, ("none", "ws"))], "max_inputs": 90},
     "thorough": {"top": [(3, MODS, ("none", "ws", "ws_loud", "cm2", "both", "ws_choice", "cm1", "cm_pred")), (4, ("",), ("none", "ws"))],
                  "ctx": [(3, ("none", "ws")), (2, ("cm2", "both", "ws_loud", "ws_choice"))], "max_inputs": 160},
@@ -188,7 +188,7 @@ def c01_specs(tier: str, kmode: str = "zero", terminals=T_FULL, soi_free: bool =
 
 
 def c01_rule_text():
-    return ("(a) top level: every expression with <= n nodes over {\"a\",\"b\",\"ab\",^\"a\",'a'..'b',ANY,EOI,n,s, PUSH(\"a\"|\"b\"),POP,PEEK,DROP,PEEK_ALL,POP_ALL,PUSH_LITERAL(\"b\"),PEEK[0..], #tt = n, #tt = (n ~ \"b\")} "
+    return ("(a) top level: every expression with <= n nodes over {\"a\",\"b\",\"ab\",^\"a\",^\"ab\",'a'..'b',ANY,EOI,SOI,ASCII_ALPHA_UPPER,n,s, PUSH(\"a\"|\"b\"),POP,PEEK,DROP,PEEK_ALL,POP_ALL,PUSH_LITERAL(\"b\"),PEEK[0..],PEEK[-1..], #tt = n, #tt = (n ~ \"b\"), #tt = s} "
             "with ( ) ? * + {2} {1,} {,2} {1,2} & ! ~ |, x start-rule modifier x trivia configuration; "
             "(b) contexts: every hole expression placed at top level, left/right of a sequence, as an alternative that commits and is then abandoned ((HOLE ~ \"!\") | ANY*), under ? * + {2} {1,} {,2} {1,2} with the same abandon trick, "
             "under & ! !! , inside PUSH( ), after a pre-pushed stack entry, as the whole body of a rule called with one or two entries on the stack, and as the body of a _ @ $ ! rule called from a normal, an atomic and a compound parent (36 contexts); "
